@@ -367,6 +367,7 @@ class Run:
             base, 'regions-verif', f'{os.getpid()}-{plan["seed"]}')
         self.disk = os.path.join(self.root, 'disk')
         self.scratch = os.path.join(self.root, 'scratch')
+        self.probe_rng = Stream(plan['seed'], 'probe')
 
     # -- helpers
     def path(self, rel, root=None):
@@ -557,6 +558,8 @@ class Run:
                            f'not a regular file: {after.get(dest_rel)}')
             return after
         self.readback(i, step, dest_rel, dest_path)
+        if self.probe_rng.random() < 0.1:
+            self.probe_diskfull(step, os.path.getsize(full))
         after2 = snapshot(self.disk)
         d = snap_diff(after, after2)
         if d:
@@ -564,6 +567,48 @@ class Run:
                            'reading back changed the disk: '
                            + '; '.join(_describe_change(c) for c in d))
         return after2
+
+    def probe_diskfull(self, step, size):
+        """PROBE CLASS, never a violation (R1 in DESIGN.md): repeat a write
+        that just succeeded, in a scratch directory, with the kernel refusing
+        to let any file grow beyond N bytes (RLIMIT_FSIZE; the real file
+        objects see EFBIG, no wrapper).  Records what is left behind."""
+        import resource
+        import signal
+        pdir = os.path.join(self.scratch, 'probe')
+        shutil.rmtree(pdir, ignore_errors=True)
+        os.makedirs(pdir)
+        dest = os.path.join(pdir, os.path.basename(step['dest']))
+        existing = self.probe_rng.random() < 0.5
+        if existing:
+            with open(dest, 'wb') as fh:
+                fh.write(TEXT)
+        n = int(self.probe_rng.random() * max(size, 1))
+        st = dict(step)
+        st['overwrite'] = True
+        old = resource.getrlimit(resource.RLIMIT_FSIZE)
+        oldsig = signal.signal(signal.SIGXFSZ, signal.SIG_IGN)
+        try:
+            resource.setrlimit(resource.RLIMIT_FSIZE, (n, old[1]))
+            outcome, _ = self.call_write(st, dest, [])
+        finally:
+            resource.setrlimit(resource.RLIMIT_FSIZE, old)
+            signal.signal(signal.SIGXFSZ, oldsig)
+        if outcome[0] == 'ok':
+            state = 'write-succeeded'
+        elif not os.path.lexists(dest):
+            state = 'raised:destination-absent'
+        else:
+            with open(dest, 'rb') as fh:
+                data = fh.read()
+            if existing and data == TEXT:
+                state = 'raised:old-content-intact'
+            else:
+                state = 'raised:partial-or-truncated-file'
+        key = f'{step["fmt"]}:{"existing" if existing else "absent"}:{state}'
+        d = self.stats.setdefault('beyond_property_disk_full', {})
+        d[key] = d.get(key, 0) + 1
+        shutil.rmtree(pdir, ignore_errors=True)
 
     def control_succeeds(self, step):
         cdir = os.path.join(self.scratch, 'control')
